@@ -864,6 +864,56 @@ theorem clearExcept_after_C (e : SEnv) (buf : List Rat) (hw : e.weight < buf.len
       · rw [if_neg h0, if_pos h]
       · rw [if_neg h0, if_neg h]; exact hz j hj (fun x => h x.symm) (fun x => h0 x.2.symm)
 
+/-! ## the three setup loops of solveLP -/
+
+theorem mdpSetup_two (e : MEnv) (st : SSt) (x y : Rat) (hj : e.junk.length = st.buf.length + 1)
+    (hr : e.rule < st.buf.length + 1) (hw : e.weight < st.buf.length + 1) :
+    ((List.replicate e.junk.length (0 : Rat)).set e.rule x).set e.weight y
+      = denseRow (st.buf.length + 1) ⟨[(e.rule, x), (e.weight, y)], .eq, 0⟩ := by
+  apply ext_getD _ _ (by simp [length_denseRow, hj])
+  intro j hjl
+  simp only [List.length_set, List.length_replicate, hj] at hjl
+  rw [getD_set_lt _ _ _ _ (by simp [hj]; omega), getD_set_lt _ _ _ _ (by simp [hj]; omega), getD_replicate_zero,
+    getD_denseRow _ _ _ hjl, dense_two]
+
+/-- **`solveLP`, loop over `h`, one kept entry**: `addColumn` (buffer content unspecified), `setZero`, two writes, one push — the dense form
+    of the model's row `−u(col) − q·w_k = 0`, for every content of the re-allocated buffer -/
+theorem mdpSetupH_body (e : MEnv) (st : SSt) (hj : e.junk.length = st.buf.length + 1)
+    (hr : e.rule < st.buf.length + 1) (hw : e.weight < st.buf.length + 1) :
+    (execMBody e AITB.Gen.mdpSetupHBody st).pushed
+      = st.pushed ++ [(denseRow (st.buf.length + 1) ⟨[(e.rule, -1), (e.weight, -e.q)], .eq, 0⟩, 0)] ∧
+    (execMBody e AITB.Gen.mdpSetupHBody st).buf.length = st.buf.length + 1 := by
+  simp only [AITB.Gen.mdpSetupHBody, execMBody, execM, mIx, mVal]
+  refine ⟨?_, by simp [hj]⟩
+  rw [mdpSetup_two e st _ _ hj hr hw]
+
+/-- loop over `g`: the row `−u(col) + γ q·w_k = 0` -/
+theorem mdpSetupG_body (e : MEnv) (st : SSt) (hj : e.junk.length = st.buf.length + 1)
+    (hr : e.rule < st.buf.length + 1) (hw : e.weight < st.buf.length + 1) :
+    (execMBody e AITB.Gen.mdpSetupGBody st).pushed
+      = st.pushed ++ [(denseRow (st.buf.length + 1) ⟨[(e.rule, -1), (e.weight, e.disc * e.q)], .eq, 0⟩, 0)] ∧
+    (execMBody e AITB.Gen.mdpSetupGBody st).buf.length = st.buf.length + 1 := by
+  simp only [AITB.Gen.mdpSetupGBody, execMBody, execM, mIx, mVal]
+  refine ⟨?_, by simp [hj]⟩
+  rw [mdpSetup_two e st _ _ hj hr hw]
+
+/-- loop over `R`: the row `u(col) = q` -/
+theorem mdpSetupR_body (e : MEnv) (st : SSt) (hj : e.junk.length = st.buf.length + 1) (hr : e.rule < st.buf.length + 1) :
+    (execMBody e AITB.Gen.mdpSetupRBody st).pushed
+      = st.pushed ++ [(denseRow (st.buf.length + 1) ⟨[(e.rule, 1)], .eq, e.q⟩, e.q)] ∧
+    (execMBody e AITB.Gen.mdpSetupRBody st).buf.length = st.buf.length + 1 := by
+  simp only [AITB.Gen.mdpSetupRBody, execMBody, execM, mIx, mVal]
+  refine ⟨?_, by simp [hj]⟩
+  have e1 : (List.replicate e.junk.length (0 : Rat)).set e.rule 1 = denseRow (st.buf.length + 1) ⟨[(e.rule, 1)], .eq, e.q⟩ := by
+    apply ext_getD _ _ (by simp [length_denseRow, hj])
+    intro j hjl
+    simp only [List.length_set, List.length_replicate, hj] at hjl
+    rw [getD_set_lt _ _ _ _ (by simp [hj]; omega), getD_replicate_zero, getD_denseRow _ _ _ hjl, dense_one]
+  rw [e1]
+
+example : (execMBody ⟨4, 1, 3, 1/2, [9, 9, 9, 9, 9]⟩ AITB.Gen.mdpSetupGBody ⟨[7, 7, 7, 7], []⟩).pushed = [([0, 3/2, 0, 0, -1], 0)] := by decide +kernel
+
+
 /-! ## every call of the cross-sum callbacks in every run -/
 
 section grp
